@@ -25,17 +25,10 @@ Definition wt_scalar (t : ty) (k : skind) (v : gval) : bool :=
   end.
 
 Fixpoint wt (ctx : schemas) (t : ty) (v : gval) {struct v} : bool :=
-  if is_any t then match v with GNil | GAny _ => true | _ => false end else
+  if is_any t then match v with GNil => true | GAny j => negb (json_eqb j JNull) | _ => false end else
   match payload_type ctx t with
   | PUnm _ => false
   | PTy pt =>
-      (* the value behind the pointer, if the Go type is a pointer *)
-      let body := fun (x : gval) (rec_elem : ty -> gval -> bool) =>
-        match pt, x with
-        | TScalar _ k _ _, _ => wt_scalar pt k x
-        | TEnum _ vs, _ => match enum_base vs with TScalar _ k _ _ as b => wt_scalar b k x | _ => false end
-        | _, _ => false
-        end in
       match v with
       | GNil => (is_ptr t || match pt with TArray _ _ | TMap _ _ _ => true | _ => false end)%bool
       | GPtr x =>
@@ -56,16 +49,27 @@ Fixpoint wt (ctx : schemas) (t : ty) (v : gval) {struct v} : bool :=
           (negb (is_ptr t) &&
            match pt with
            | TStruct _ _ fs =>
+               (* a disjunction struct holds at most one branch *)
+               (match union_scalars pt, union_refs pt with
+                | None, None => true
+                | _, _ => Nat.leb (List.length (filter (fun nv => negb (is_nil (snd nv))) fvs)) 1
+                end &&
                (fix go (fs : list field) (fvs : list (string * gval)) {struct fvs} : bool :=
                   match fs, fvs with
                   | [], [] => true
                   | f :: fr, (n, fv) :: vr => (seqb n (f_name f) && wt ctx (f_type f) fv && go fr vr)%bool
                   | _, _ => false
-                  end) fs fvs
+                  end) fs fvs)%bool
            | _ => false
            end)%bool
       | GAny _ => false
-      | _ => (negb (is_ptr t) && body v (fun _ _ => true))%bool
+      | _ =>
+          (negb (is_ptr t) &&
+           match pt with
+           | TScalar _ k _ _ => wt_scalar pt k v
+           | TEnum _ vs => match enum_base vs with TScalar _ k _ _ as b => wt_scalar b k v | _ => false end
+           | _ => false
+           end)%bool
       end
   end.
 
